@@ -4,6 +4,8 @@
     fiber <status> <noUseval> <noSkip> <frame> <stackstart> <stacktop> <maxstack> {7 numbers per frame record}
                                                   -> "inv=<acc|rej> src=<acc|rej>"  (all checks = the invariant / checks of the current source)
     function <len> <def envs> <indices...>        -> "inv=<acc|rej> src=<acc|rej>"  (acceptFunction: header count vs def, environment indices ≥ -1)
+    nanbox                                        -> "ok=<NB.ok> nan=<bits> safe=<bool>"   (NaN-boxing constants of the current source)
+    nanbox <w decimal>                            -> "<bits of the Janet unmarshal_one makes of LB_REAL w> <janet_type> <mask of types passing janet_checktype>"
     pegrows                                       -> global flags + opcode numbers whose verifier row does not cover peg_rule
     pegverify <num_constants> <words...>          -> "acc" | "rej"   (model of the verifier in peg_unmarshal)
     verify <sc> <arity> <vararg> <nc> <nd> <ne> <hex of u32 LE words> -> error code of the janet_verify model (0 = accepted)
@@ -24,6 +26,7 @@ import JanetModel.PegVerify.Defs
 import JanetModel.Gen.PegAccess
 import JanetModel.Unmarsh.BytesCfg
 import JanetModel.Bytecode.GuardObligations
+import JanetModel.Gen.NanBox
 open Driver JanetModel.Bytecode JanetModel.Gen.VmAccess JanetModel.Unmarsh
 
 def allChecks : Checks :=
@@ -81,6 +84,16 @@ def step (_ : Unit) (toks : List String) : Unit × String :=
     let bad := C.sites.bad ++ (if C.refChecked then [] else ["lookup[len]"]) ++ (if C.envRefChecked then [] else ["lookup_envs[index]"]) ++
       (if C.defRefChecked then [] else ["lookup_defs[index]"])
     ((), if bad.isEmpty then "ok" else "bad " ++ " ".intercalate bad)
+  | ["nanbox"] =>
+    let N := JanetModel.Gen.NanBox.nb
+    ((), s!"ok={N.ok} nan={N.nanBits} safe={N.safe}")
+  | ["nanbox", w] =>
+    match w.toNat? with
+    | some w =>
+      let N := JanetModel.Gen.NanBox.nb
+      let r := JanetModel.Unmarsh.NanBox.unmarshalReal N w
+      ((), s!"{r} {JanetModel.Unmarsh.NanBox.janetType N r} {JanetModel.Unmarsh.NanBox.typeMask N r}")
+    | none => ((), "bad-op")
   | ["umdepths"] =>
     let bad := JanetModel.Unmarsh.Bytes.cfg.inc.bad
     ((), if bad.isEmpty then "ok" else "bad " ++ ";".intercalate (bad.map (·.replace " " "_")))
